@@ -33,7 +33,8 @@ def describe(tier):
                                  b['attrs'], len(D.ATTR_SETS), b['bodies'], D.BODY_VARIANTS[1:]),
         nontrivial='the position lies strictly inside at least one element.',
         bounds=b,
-        assumptions=['the checked calls at every fourth position are preceded by %d x 3 calls on ill-formed documents in the other '
+        assumptions=['every checked call on a document with attributes is preceded by the same call on a same-length document with other '
+                     'attribute text at the same offsets', 'the checked calls at every fourth position are preceded by %d x 3 calls on ill-formed documents in the other '
                      'mode: history must not matter' % len(POISON), 'balanced_inward exactly at element boundaries and ill-formed documents are left unspecified (C16 covers totality)'],
         explanation='Every (document, position) is given to the real matcher functions and compared with the generator ground truth; '
                     'the enumeration count is cross-checked against the closed recurrence for forests.',
@@ -98,6 +99,12 @@ def check_pos(text, elements, xml, p):
     opt = {'xml': xml}
     if p % 4 == 0:
         poison(xml)
+    if any(e['attrs'] for e in elements):
+        # the same call on a document of the same length with the same tags at the same offsets but other attribute text
+        try:
+            H.match(D.attribute_variant(text, elements), p, opt)
+        except Exception:
+            pass
     enc = D.enclosing(elements, p)
     # match
     try:
